@@ -22,6 +22,9 @@ pub fn new_term_ref_type(term: Term) -> TermRefType {
 
 /// 统一创建空「无序不重复词项容器」
 pub fn new_term_set_type() -> TermSetType {
+    #[cfg(narsese_verif)]
+    return TermSetType::default();
+    #[cfg(not(narsese_verif))]
     TermSetType::new()
 }
 
